@@ -382,7 +382,11 @@ class EngineBase:
             toks = [self.any_token(st, v.d[k_]).z for k_ in keys]
             f = self.recfuncs.setdefault(('$any_dict', tuple(map(str, keys))),
                                          z3.Function('any_dict_' + '_'.join(map(str, keys)), *([I] * len(keys) + [I])))
-            return SVal(KAny, [f(*toks)])
+            tok = f(*toks)
+            # projections (spec: any_get(token, key)): ground instances of  any_get_k(any_dict(.., v_k, ..)) == v_k
+            for k_, t_ in zip(keys, toks):
+                st.assume(self.any_get_fn(str(k_))(tok) == t_)
+            return SVal(KAny, [tok])
         if isinstance(v, TupleVal):
             toks = [self.any_token(st, x).z for x in v.items]
             f = self.recfuncs.setdefault(('$any_tuple', len(toks)), z3.Function('any_tuple_%d' % len(toks), *([I] * len(toks) + [I])))
@@ -391,6 +395,9 @@ class EngineBase:
         from core import KOpt
         if isinstance(v, SVal) and isinstance(v.kind, KOpt) and v.kind.inner.name == 'Any':
             return SVal(KAny, [z3.If(v.t[0], z3.IntVal(0), v.t[1])])       # None is token 0
+        if isinstance(v, SVal) and isinstance(v.kind, KOpt) and len(v.t) == 2:
+            inner = self.any_token(st, SVal(v.kind.inner, v.t[1:]))
+            return SVal(KAny, [z3.If(v.t[0], z3.IntVal(0), inner.z)])
         if isinstance(v, SVal) and len(v.t) == 1:
             srt = v.z.sort()
             if srt == I:
@@ -399,6 +406,9 @@ class EngineBase:
             f = self.recfuncs.setdefault(('$any_of', str(srt)), z3.Function('any_of_' + str(srt), srt, I))
             return SVal(KAny, [f(v.z)])
         raise CheckerError('cannot turn %r into an opaque token' % (v,))
+
+    def any_get_fn(self, key):
+        return self.recfuncs.setdefault(('$any_get', key), z3.Function('any_get_' + key, I, I))
 
     def coerce_to(self, st, v, kind):
         if isinstance(v, SVal) and v.kind == kind:
